@@ -7,6 +7,9 @@
  * `mergeDfltNeedsDeletedDflt`: whether the LYD_DIFF_MERGE_DEFAULTS branch of lyd_diff_merge_create ("the created value is the
    schema default -> operation none") also requires the DELETED value to be the schema default (the repair of finding F18(b));
    the model's `mergeCreate` follows this flag, the theorems about the cell are stated for both values.
+ * `reverseUserordRepaired`: whether lyd_diff_reverse_all finishes with the second pass lyd_diff_reverse_userord_r (the repair of
+   finding F15 (a)/(b): anchors of reversed create/delete renamed, nested anchors added/removed, runs of user-ordered
+   instances put in reverse order) and reverses position metadata with lyd_diff_reverse_position (F15 (c)); the model's `Diff.reverse` follows this flag (Diff/Reverse.lean).
 The translation refuses (minic.Unsupported) when the statements have another shape than the two known ones.
 """
 import os, re, sys
@@ -112,6 +115,44 @@ def gen_diff13():
     out.append("\n-- diff.c lyd_diff_merge_create, LYD_DIFF_MERGE_DEFAULTS: does 'created value = schema default -> none' also require")
     out.append("-- the deleted value to be the schema default?  (false: finding F18(b))")
     out.append("def mergeDfltNeedsDeletedDflt : Bool := %s" % flag)
+    # the second pass of lyd_diff_reverse_all over user-ordered nodes (repair of F15 (a)/(b))
+    rev_all = re.sub(r"\s+", " ", func_body(src, "lyd_diff_reverse_all"))
+    called = re.search(r"ret = lyd_diff_reverse_userord_r\(diff, mod\)", rev_all) is not None
+    defined = re.search(r"\nlyd_diff_reverse_userord_r\s*\(", src) is not None
+    if called != defined:
+        raise minic.Unsupported("lyd_diff_reverse_userord_r is %s but %s" % ("called" if called else "not called", "defined" if defined else "not defined"))
+    # (c): position metadata of a moved instance of a duplicate-instance list reversed by lyd_diff_reverse_position
+    pos_def = re.search(r"\nlyd_diff_reverse_position\s*\(", src) is not None
+    pos_use = len(re.findall(r"if \(lysc_is_dup_inst_list\(elem->schema\)\) \{ LY_CHECK_GOTO\(ret = lyd_diff_reverse_position\(elem, mod\), cleanup\);",
+                             rev_all))
+    old_use = len(re.findall(r"lyd_diff_reverse_meta\(elem, mod, \"orig-position\", \"position\"\)", rev_all))
+    if called:
+        if not pos_def or pos_use != 2 or old_use:
+            raise minic.Unsupported("lyd_diff_reverse_all: second pass present but the position metadata is not reversed by lyd_diff_reverse_position")
+        pbody = re.sub(r"\s+", " ", func_body(src, "lyd_diff_reverse_position"))
+        for pat in [r"cur_pos = \(pos <= orig_pos\) \? pos : pos - 1;", r"pos = \(orig_pos > cur_pos\) \? orig_pos \+ 1 : orig_pos;",
+                    r"lyd_change_meta\(meta1, cur_pos \? buf : \"\"\)", r"lyd_change_meta\(meta2, pos \? buf : \"\"\)"]:
+            if not re.search(pat, pbody):
+                raise minic.Unsupported("lyd_diff_reverse_position has another shape than the modelled one: /%s/ not found" % pat)
+    elif pos_def or pos_use or old_use != 2:
+        raise minic.Unsupported("lyd_diff_reverse_all: position metadata reversed in an unexpected way")
+    if called:
+        pos_loop = rev_all.find("LYD_TREE_DFS_END(root, elem)")
+        if pos_loop < 0 or rev_all.find("lyd_diff_reverse_userord_r(diff, mod)") < pos_loop:
+            raise minic.Unsupported("lyd_diff_reverse_all: lyd_diff_reverse_userord_r is not called after the DFS loop")
+        body = re.sub(r"\s+", " ", func_body(src, "lyd_diff_reverse_userord_r"))
+        need = [r"lyd_diff_reverse_userord_anchor\(node, mod, op == LYD_DIFF_OP_DELETE\)",
+                r"if \(op == LYD_DIFF_OP_CREATE\) \{ LY_CHECK_RET\(lyd_diff_add_create_nested_userord\(elem\)\); \} else \{ "
+                r"lyd_diff_del_meta\(elem, lyd_diff_userord_meta_name\(elem->schema, 0\)\); \}",
+                r"lyd_diff_reverse_userord_r\(lyd_node_child_p\(node\), mod\)",
+                r"while \(lysc_is_userordered\(node->schema\) && node->next && \(node->next->schema == node->schema\)\) \{",
+                r"lyd_insert_before\(head, elem\)"]
+        for pat in need:
+            if not re.search(pat, body):
+                raise minic.Unsupported("lyd_diff_reverse_userord_r has another shape than the modelled one: /%s/ not found" % pat)
+    out.append("\n-- diff.c lyd_diff_reverse_all: is the reversed diff finished by lyd_diff_reverse_userord_r (anchors of user-ordered")
+    out.append("-- create/delete renamed, runs of user-ordered instances in reverse order)?  (false: finding F15 (a)/(b))")
+    out.append("def reverseUserordRepaired : Bool := %s" % ("true" if called else "false"))
     out.append("\nend LyModel.Generated.Diff13\n")
     return "\n".join(out), missing
 
